@@ -101,6 +101,32 @@ def eval_twin(run, prop, cases):
     return out
 
 # ---------------------------------------------------------------- C09
+def atomicity_stage(run, prop, reps):
+    """The bridge model's steps are atomic on the registry (in the code: the registry mutex is held across
+    ResolveRegistry::resume).  Validate that on the real code: responses / events delivered to one bridge from
+    two or three shell threads, the others started while the first sits inside the deserialization of its body,
+    must have the outcome of SOME sequential order of the same calls (the sequential outcomes are produced by
+    the implementation itself, in every order)."""
+    ok, log, bins = C.harness_build(["bridge_conc"])
+    run.oblige("harness-build bridge_conc (dev, --cfg crux_verif) from the repository's working tree", ok, log[-1500:])
+    if not ok: return
+    rc, out = C.sh("timeout 600 %s %d" % (bins["bridge_conc"], reps), timeout=700)
+    rows = [json.loads(l) for l in out.splitlines() if l.startswith("{")]
+    bad = [r for r in rows if not r.get("ok")]
+    run.oblige("registry steps are atomic under concurrent shell threads: every concurrent outcome equals that of some sequential order "
+               "(%d runs: 5 scenarios x bincode/JSON x %d)" % (len(rows), reps), rc == 0 and len(rows) == 10 * reps and not bad, json.dumps(bad[:2])[:3000] or out[-600:])
+    for r in rows:
+        run.note_case(("atomicity", r["scenario"], r["codec"], r.get("rep")), nontrivial=True); run.cov["traces_validated_against_impl"] += 1
+    if bad:
+        run.violation("registry_atomicity", {"property": prop, "kind": "atomicity",
+            "what": "calls made to one bridge from several shell threads have an outcome that no sequential order of the same calls has: a response was refused, "
+                    "delivered to the wrong request, or a live stream / a new request was lost",
+            "cases": bad[:6], "how_to_replay": ".cache/target/debug/bridge_conc <repetitions> (harness/src/bin/bridge_conc.rs): call 0 carries the value whose deserialization pauses; "
+                                               "the other calls start while it sits there"})
+    run.extra["atomicity_stage"] = {"runs": len(rows), "overlapped_inside_window": sum(1 for r in rows if r.get("overlapped"))}
+    run.assumptions += ["SC / lock-based reasoning only: the window is the deserialization of a response body inside ResolveRegistry::resume; windows elsewhere in the bridge are not opened"]
+    run.trusted += ["harness/src/bin/bridge_conc.rs (own small app, pausable Deserialize, sequential reference runs of the implementation itself)"]
+
 def check_C09(run, replay=None):
     tier = run.tier
     histories = 150 if tier == "quick" else 2500
@@ -179,6 +205,8 @@ def check_C09(run, replay=None):
         run.violation("correspondence", {"property": "C09", "what": "bridge model and implementation differ; C09_ok still holds on every trace seen",
                                          "broken": "correspondence coq/Bridge/Bridge.v vs crux_core::bridge", "rerun": rerun,
                                          "cases": [dict(shrink_case(c, s), differs=DIFF_FIELD.get(k, k), at_call=s) for c, s, k in bad_model[:8]]}, no_input=True)
+    if not replay or (rp and rp.get("kind") == "atomicity"):
+        atomicity_stage(run, "C09", 2 if tier == "quick" else 12)
     run.cov["rule"] = ("histories of 4..%d calls over two apps (Command API + #[effect]; legacy capabilities + derive(Effect)) x two codecs "
                        "(bincode Bridge, serde_json BridgeWithSerializer), each run in lockstep with a typed Core: events with 0..9 effects "
                        "(render, notifications, one-shot u64/String requests with follow-up chains, streams), responses to outstanding requests in "
@@ -317,6 +345,8 @@ def check_C02(run, replay=None):
     # value reaches exactly the continuation of the strand that asked (coq/Rt/RefCoreProps.v)
     if not rp:
         rt_eng.rc_stage(run, "C02", 1500 if tier == "quick" else 40000)
+        # routing by id when responses arrive from several shell threads at once (shared with C09)
+        atomicity_stage(run, "C02", 1 if tier == "quick" else 8)
     run.cov["rule"] = ("7 hosts (typed Core::resolve on the Command-API app and on the legacy-capability app; Bridge bincode and BridgeWithSerializer json on both; "
                        "a bare Command with explicit poll/abort/drop) x histories of 4..%d steps: events spawning 1..7 tasks (one-shot u64/String requests with chains, "
                        "streams with consumers that end after 1..3 values or never, notifications; few labels so operations are often equal), resolutions of outstanding, "
